@@ -519,6 +519,64 @@ fn subjects(cli: &Cli) -> Vec<Subject12> {
     v
 }
 
+// ---------------------------------------------------------------------------
+// Commit / rollback chains under one constant policy (no restart letters)
+// ---------------------------------------------------------------------------
+
+fn chain_letters(cli: &Cli) -> Vec<Op12> {
+    let mut v = vec![Op12::Commit(Delta::Put0), Op12::Commit(Delta::Put1), Op12::Rollback];
+    if cli.tier == Tier::Thorough {
+        v.push(Op12::Commit(Delta::Del0));
+    }
+    v
+}
+
+fn chain_subject(p: Policy) -> Subject12 {
+    Subject12 { initial: p, first_height: 0, deltas: vec![], policies: vec![], kill: false, max_depth: 99, prefill: 2 }
+}
+
+fn chain_name(p: Policy) -> String {
+    format!("rollback-chains[constant policy {}, 2 blocks pre-committed]", p.name())
+}
+
+/// Every word of exactly `depth` letters over commit(K) / commit(J) (/ delete K) / rollback, each on
+/// its own database opened once with `p` and never restarted; the oracle runs after every letter.
+fn chain_sweep(cli: &Cli, p: Policy, depth: usize) -> Sweep {
+    let letters = chain_letters(cli);
+    let n = letters.len().pow(depth as u32);
+    let subj = chain_subject(p);
+    par_sweep(
+        &chain_name(p),
+        "every word of the stated length over {commit writing key K (Coins), commit writing the adjacent key J, rollback_last_block (+ commit deleting K in the thorough tier)} executed on its own database (two blocks writing K pre-committed, one constant rewind policy, no restart); after every letter view_at(h) for every height of the model must be the no-history error or the exact snapshot, latest state = tip snapshot, rollback oracle as in the explorations; one evaluation = one word; non-trivial = the word contains a rollback followed by a commit; distinct by word",
+        n,
+        cli.threads,
+        |i, sw| {
+            let mut word = vec![];
+            let mut x = i;
+            for _ in 0..depth {
+                word.push(letters[x % letters.len()].clone());
+                x /= letters.len();
+            }
+            let rb_then_commit = word.iter().position(|o| matches!(o, Op12::Rollback)).map(|k| word[k..].iter().any(|o| matches!(o, Op12::Commit(_)))).unwrap_or(false);
+            let nontrivial = if rb_then_commit { Some(hash_of(&i)) } else { None };
+            let r = guarded(|| {
+                let mut w = subj.fresh();
+                for (k, op) in word.iter().enumerate() {
+                    if let Err(v) = subj.step(&mut w, op) {
+                        return Err((k, v));
+                    }
+                }
+                Ok(())
+            });
+            match r {
+                Ok(Ok(())) => sw.case(nontrivial, "every view exact or no-history", || json!(word), Ok(())),
+                Ok(Err((k, v))) => sw.case(nontrivial, "violated", || json!(word[..=k]), Err(v)),
+                Err(panic) => sw.case(nontrivial, "panic", || json!(word), Err(viol("panic", panic))),
+            }
+        },
+    )
+}
+
 pub fn run(cli: &Cli) {
     let subs = subjects(cli);
     if let Some(path) = &cli.replay {
@@ -527,6 +585,11 @@ pub fn run(cli: &Cli) {
         for s in &subs {
             if s.name() == rf.subject {
                 replay_exit(s, &rf);
+            }
+        }
+        for p in [Policy::Full, Policy::Range(2)] {
+            if chain_name(p) == rf.subject {
+                replay_exit(&chain_subject(p), &rf);
             }
         }
         for p in [Policy::NoRewind, Policy::Full, Policy::Range(1), Policy::Range(2)] {
@@ -560,6 +623,12 @@ pub fn run(cli: &Cli) {
         let n = quiet.len();
         run.add(merge_reports(&format!("database-history: {n} configurations without findings (merged)"), depth, quiet));
     }
+    let chain_depth = cli.tier.pick(5, 6);
+    for p in [Policy::Full, Policy::Range(2)] {
+        let sw = chain_sweep(cli, p, chain_depth);
+        run.add_sweep(sw);
+    }
+    run.note("rollback_chain_word_length", json!(chain_depth));
     run.note("restart_points_enumerated", json!(restart_points));
     run.note("scratch", json!(crate::util::scratch_root_description()));
     run.note("fault_model", json!("restart points = every commit/rollback boundary of every explored history; restart = drop all handles without shutdown() and reopen with each rewind policy; thorough tier adds a process-kill image (directory copied while the database is open, then opened)"));
